@@ -15,8 +15,8 @@ from ..runner import Outcome
 
 ID = "C01"
 VARIANTS = {"quick": ("asan",), "thorough": ("asan", "fuzz")}
-BUDGET = {"quick": dict(examples=40000, seconds=55),
-          "thorough": dict(examples=700000, seconds=420)}
+BUDGET = {"quick": dict(examples=120000, seconds=55),
+          "thorough": dict(examples=3000000, seconds=420)}
 RULE = ("Hypothesis-generated op trees (top-level ops and ops executed from inside event actions) on the "
         "real event queue; after every op the model (array of pending events, min by time asc / priority "
         "desc / handle asc) is compared with queue_count, is_scheduled/time/priority of every handle ever "
